@@ -20,14 +20,18 @@ _STATE = {}
 # hint source over the placeholder name N (the class the program defines)
 HINTS = ['@', 'list[@]', 'dict[str, @]', '@ | None', 'Optional[@]', 'tuple[@, int]', 'list[list[@]]', 'Union[@, str]', 'type[@]', 'Sequence[@]',
          'tuple[@, ...]', 'dict[@, int]', 'list[@] | None', 'int']
+# the program's class is a user generic: subscripted references to it are separate forward-reference proxies
+GENERIC_HINTS = ['@[int]', 'list[@[int]]', '@[int] | None']
+HINTS = HINTS[:-1] + GENERIC_HINTS + ['int']
 # an object of the right outer shape whose innermost item is a plain object(): checking it needs the (unresolved) class
 EARLY = {'@': 'object()', 'list[@]': '[object()]', 'dict[str, @]': "{'a': object()}", '@ | None': 'object()', 'Optional[@]': 'object()',
          'tuple[@, int]': '(object(), 1)', 'list[list[@]]': '[[object()]]', 'Union[@, str]': 'object()', 'type[@]': 'object', 'Sequence[@]': '[object()]',
-         'tuple[@, ...]': '(object(),)', 'dict[@, int]': '{object(): 1}', 'list[@] | None': '[object()]'}
+         'tuple[@, ...]': '(object(),)', 'dict[@, int]': '{object(): 1}', 'list[@] | None': '[object()]',
+         '@[int]': 'object()', 'list[@[int]]': '[object()]', '@[int] | None': 'object()'}
 # objects: source over the names N (class), inst (an instance)
 OBJS = ['inst', '1', "'s'", '[inst]', '[1]', "{'a': inst}", "{'a': 1}", 'None', '(inst, 1)', '(1, inst)', '[[inst]]', '[[1]]', 'N', 'int', '(inst,)', '{inst: 1}', '[]']
 
-PRE = 'from typing import *\nfrom collections.abc import Sequence\nfrom beartype import beartype\n'
+PRE = 'from typing import *\nfrom collections.abc import Sequence\nfrom beartype import beartype\nT_ = TypeVar("T_")\n'
 
 
 def program(placement, form, hint, cname):
@@ -37,7 +41,7 @@ def program(placement, form, hint, cname):
     quoted = form in ('str', 'str-in-pep563', 'later-str')
     ann = repr(H) if quoted else H
     later = form.startswith('later')
-    cls = f'class {cname}:\n    def __hash__(self): return 1\n'
+    cls = f'class {cname}(Generic[T_]):\n    def __hash__(self): return 1\n'
     sig = f'(x: {ann}) -> {ann}'
     if placement == 'module':
         body = f'@beartype\ndef f{sig}:\n    return x\n'
@@ -63,9 +67,27 @@ def program(placement, form, hint, cname):
         # the hint names the class being defined (only meaningful as a string / postponed form)
         Hs = hint.replace('@', 'Holder')
         anns = repr(Hs) if quoted or form == 'evaluated' else Hs
-        body = f'@beartype\nclass Holder:\n    def __hash__(self): return 1\n    def m(self, x: {anns}) -> {anns}:\n        return x\n'
+        body = f'@beartype\nclass Holder(Generic[T_]):\n    def __hash__(self): return 1\n    def m(self, x: {anns}) -> {anns}:\n        return x\n'
         return fut + PRE + body, None, '[(Holder, Holder().m)]'
     ind = lambda s, n=1: ''.join('    ' * n + l + '\n' for l in s.splitlines())
+    if placement == 'nested-class-local':
+        # the class the hint names is defined in the body of the nested class itself (before / after the method); the
+        # enclosing decorated class binds the same name to something else
+        meth = f'def n(self, x: {ann}) -> {ann}:\n    return x\n'
+        inner = ('' if later else cls) + meth + (cls if later else '')
+        body = f'@beartype\nclass Holder:\n    {cname} = bytes\n    class Inner:\n' + ind(inner, 2)
+        return fut + PRE + body, None, f'[(Holder.Inner.{cname}, Holder.Inner().n)]'
+    if placement == 'class-local':
+        meth = f'def n(self, x: {ann}) -> {ann}:\n    return x\n'
+        inner = ('' if later else cls) + meth + (cls if later else '')
+        body = f'{cname} = bytes\n@beartype\nclass Holder:\n' + ind(inner, 1)
+        return fut + PRE + body, None, f'[(Holder.{cname}, Holder().n)]'
+    if placement == 'nested-class-alias':
+        # the hint is a name bound in the nested class body to the (evaluated) hint; the enclosing class binds it differently
+        a = repr('Alias') if quoted else 'Alias'
+        body = (f'@beartype\nclass Holder:\n    Alias = bytes\n    def m(self, x: {a}) -> {a}:\n        return x\n'
+                f'    class Inner:\n        Alias = {H}\n        def n(self, x: {a}) -> {a}:\n            return x\n')
+        return fut + PRE + cls + body, None, f'[({cname}, Holder.Inner().n)]'
     if placement in ('closure', 'closure-overlap'):
         fname = 'make' if placement == 'closure' else f'make_{cname}_visitor'
         inner = (('' if later else cls) + f'@beartype\ndef f{sig}:\n    return x\n' + (cls if later else '') + f'return {cname}, f\n')
@@ -164,7 +186,8 @@ def run_program(placement, form, hint, cname, unresolved_call=False):
     return obs, early, p1 + (p2 or '')
 
 
-PLACEMENTS = ['module', 'method', 'class-decorated', 'nested-method', 'closure', 'closure-overlap', 'closure-calls-inside', 'closure-in-method', 'self-class']
+PLACEMENTS = ['module', 'method', 'class-decorated', 'nested-method', 'closure', 'closure-overlap', 'closure-calls-inside', 'closure-in-method', 'self-class',
+              'nested-class-local', 'class-local', 'nested-class-alias']
 FORMS = ['evaluated', 'str', 'pep563', 'str-in-pep563', 'later-str', 'later-pep563']
 
 
@@ -172,7 +195,7 @@ def run(ctx):
     from .. import drive
     drive.install_draw()
     drive.DRAW[0] = 0          # one fixed draw: the forms must agree draw for draw (sampling itself is C02)
-    hints = HINTS if not ctx.quick else HINTS[:10] + ['int']
+    hints = HINTS if not ctx.quick else HINTS[:10] + GENERIC_HINTS + ['int']
     n_eval = n_prog = 0
     outcomes = set()
     for placement in PLACEMENTS:
@@ -180,7 +203,7 @@ def run(ctx):
             for hint in hints:
                 base = None
                 for form in FORMS:
-                    if placement == 'self-class' and form.startswith('later'):
+                    if placement in ('self-class', 'nested-class-alias') and form.startswith('later'):
                         continue
                     if placement == 'self-class' and form == 'evaluated':
                         # no evaluated form exists for a class naming itself: the quoted form in a plain module is the baseline
@@ -221,7 +244,8 @@ def run(ctx):
         distinct_verdicts=sorted(outcomes), exhaustive=True,
         samples=[program('closure-overlap', 'later-str', 'list[N]', 'Node')[0], program('nested-method', 'str-in-pep563', 'dict[str, N]', 'K')[0]],
         rule=(f'E1: {len(hints)} hint texts x {len(PLACEMENTS)} placements (module function, method, class-decorated incl. nested class, method of a nested '
-              'class, closure, closure in a function whose name contains the class name, closure in a method, class naming itself) x 6 forms '
+              'class, closure, closure in a function whose name contains the class name, closure in a method, class naming itself, class defined in the '
+              'body of the (nested) decorated class with the enclosing scope binding the same name differently, alias bound in a nested class body) x 6 forms '
               '(evaluated, string literal, PEP 563, string inside PEP 563, class defined later as string / PEP 563) x 2 class names x histories '
               '(later forms also with a call made before the class exists; closure factories invoked twice) x 17 objects; every program is a real '
               'module executed from source.  states = programs; evaluations = decorated calls.'),
